@@ -26,6 +26,8 @@ def expr_form(rng, val, R, rel_to_base=5):
     else:
         forms.append("-(%d)" % (-val))
         forms.append("BASE - %d" % (rel_to_base - val))
+        forms.append("!%d" % (-val - 1))                   # two's complement: !k == -k - 1
+        forms.append("(%d)" % val)
     return rng.choice(forms)
 
 
@@ -218,7 +220,7 @@ def disc_def(rng, did):
             if E["dgen"] in ("ty", "ltty", "tywhere", "tydef", "lttydef") and rng.random() < 0.4:
                 f["ty"] = "T"
             elif E["dgen"] in ("lt", "ltty", "lttydef") and rng.random() < 0.4:
-                f["ty"] = "str"
+                f["ty"] = rng.choice(["str", "str", "cellstr"])
     # every generic parameter must be used
     need = {"none": [], "ty": ["T"], "tywhere": ["T"], "lt": ["str"], "ltty": ["T", "str"], "tydef": ["T"], "lttydef": ["T", "str"]}[E["dgen"]]
     have = {f["ty"] for v in E["variants"] for f in v["fields"]}
@@ -245,6 +247,7 @@ def disc_def(rng, did):
             E["macro_expr"] = dict(k=k, a="%d + 1" % (val // 2 - 1), r=val % 2, form=rng.randrange(2))
     E["dname"] = rng.choice(["", "", "Kind%d" % did])
     E["dvis"] = rng.choice(["", "", "pub", "pub(crate)", "pub(super)"])
+    E["dvis_empty"] = E["dvis"] == "" and did % 5 == 2        # written `vis()`: private, which is not the same as no `vis(..)` at all
     E["dder"] = rng.random() < 0.7
     E["dstyle"] = rng.choice(["none", "snake_case", "SCREAMING_SNAKE_CASE", "kebab-case", "camelCase"]) if E["dder"] else "none"
     E["dsplit"] = rng.randrange(2)
@@ -269,7 +272,7 @@ def disc_module(E):
     items = []
     if E["dname"]:
         items.append("name(%s)" % dn)
-    if E["dvis"]:
+    if E["dvis"] or E.get("dvis_empty"):
         items.append("vis(%s)" % E["dvis"])
     if E.get("ddefault") and E["variants"]:
         items.append("derive(Default)")
@@ -318,14 +321,14 @@ def disc_module(E):
     for k, v in enumerate(E["variants"]):
         lines.append("    %s%s," % (D.vid(v), (" = " + (ref_discx.get(k) or v.get("discx") or str(v["disc"][0]))) if v["disc"] else ""))
     lines.append("}")
-    src += "\n".join("    " + l for l in lines) + "\n}\n"
-    src += "use inner::*;\n"
+    inner_txt = "\n".join("    " + l for l in lines) + "\n"
+    tail = ""
     if any("PartialOrd" in x for x in E.get("dpass", [])):
         # the derive requested through cfg_attr(all(), ..) took effect
-        src += "fn _passes_through<X: PartialOrd>() {}\nfn _check_pass_through() { _passes_through::<%s>(); }\n" % dn
-    src += "fn d_index(d: %s) -> usize { match d { %s } }\n" % (dn, " ".join("%s::%s => %d," % (dn, D.vid(v), i + 1) for i, v in enumerate(E["variants"])))
-    src += "const ANCHOR: i128 = 0;\n"
-    has_into = E["dvis"] in ("", "pub")
+        tail += "fn _passes_through<X: PartialOrd>() {}\nfn _check_pass_through() { _passes_through::<%s>(); }\n" % dn
+    tail += "fn d_index(d: %s) -> usize { match d { %s } }\n" % (dn, " ".join("%s::%s => %d," % (dn, D.vid(v), i + 1) for i, v in enumerate(E["variants"])))
+    tail += "const ANCHOR: i128 = 0;\n"
+    has_into = E["dvis"] in ("", "pub") and not E.get("dvis_empty")
     body = []
     did = E["id"]
     Einst = {"name": n, "generics": "none"}
@@ -374,5 +377,16 @@ def disc_module(E):
                  "        let mut hs = std::collections::HashSet::new(); for d in &all { hs.insert(*d); }",
                  '        o.line(&format!("{{\\"op\\":\\"dderives\\",\\"def\\":%d,\\"iter\\":{},\\"names\\":{},\\"parsed\\":{},\\"count\\":{}}}", jlist(&iter), jstrs(&names), jlist(&parsed), <%s as strum::EnumCount>::COUNT));' % (did, dn),
                  "    }"]
-    src += IG.RUN + "\n".join(body) + "\n}\n"
+    tail += IG.RUN + "\n".join(body) + "\n}\n"
+    if E.get("dvis_empty"):
+        # `vis()`: the generated enum is private to the module of the enum, so the drivers live in that module too; from outside, its
+        # name must not be reachable through a glob import (a second glob of the same name would make it ambiguous), and strum
+        # implements IntoDiscriminant only for a generated type that is as visible as the enum (a hand-written impl must not collide)
+        src += inner_txt + "".join("    " + l + "\n" for l in tail.splitlines()) + "}\n"
+        src += "pub use inner::run;\nuse inner::*;\n"
+        src += "mod other_kinds { pub enum %s { Probe } }\nuse other_kinds::*;\nfn _stays_private(_: %s) {}\n" % (dn, dn)
+        if E["dgen"] == "none":
+            src += "impl strum::IntoDiscriminant for %s { type Discriminant = u8; fn discriminant(&self) -> u8 { 0 } }\n" % n
+    else:
+        src += inner_txt + "}\nuse inner::*;\n" + tail
     return src
